@@ -204,23 +204,35 @@ def exact_residual(A, x, b):
 
 
 def tolerances(w, A, W, rhs, x_ref, solver, rtol=1e-6):
-    """Justified bounds.
+    """Justified a-posteriori bounds for the residual against the full system.
 
-    direct: LU with partial pivoting is backward stable; the reduced formulations form D W^-1 D^T explicitly, so the
-    backward error is relative to |D||W^-1||D^T| |p|: bound  c n eps (|A||x| + |b|)_inf * kappa_W  with kappa_W = max W / min W
-    (the Schur complement squares no conditioning but mixes weights over three decades), c = 64.
-    iterative: the stopping rule of CG / AMG is ||r|| <= rtol ||b_red|| on the inner system whose residual is exactly the
-    mass-balance row of the full system (the flux row holds by construction): 4 rtol ||b_red||_2 + the direct bound.
+    direct: LU with partial pivoting is backward stable. In the reduced formulations the flux is recovered as
+    u = W^-1 (g + D^T p) and the mass-balance row is evaluated through D W^-1 D^T, so the rounding errors are relative to
+      row 1:  |W||u| + |D^T||p| + |g|,    row 2:  |D| W^-1 (|g| + |D^T||p|) + |f| + |lam|,    row 3: |p_k| + |r|
+    (for the full formulation |D||u| <= |D| W^-1 (|g| + |D^T||p|), so the same expression bounds |A||x| + |b|).
+    Bound: 64 n eps max(those).  No condition number of W enters.
+    iterative: the stopping rule of CG / AMG is ||r||_2 <= rtol ||b_red||_2 on the inner system whose residual is exactly
+    the mass-balance row of the full system (the flux row holds by construction): 4 rtol ||b_red||_2 + sqrt(n) x direct bound.
     """
     n = A.shape[0]
-    absA = abs(A)
-    scale = float((absA @ np.abs(x_ref)).max() + np.abs(rhs).max())
-    kW = float(W.max() / W.min()) if len(W) else 1.0
-    direct = 64 * n * EPS * max(scale, 1e-300) * kW
     nf = len(W)
+    x = np.abs(np.asarray(x_ref, dtype=float))
+    g, f, r = np.abs(rhs[:nf]), np.abs(rhs[nf:-1]), abs(float(rhs[-1]))
+    p, lam = x[nf:-1], float(x[-1])
+    aD = abs(w.div)
+    if nf:
+        dtp = aD.T @ p
+        row1 = float((np.abs(W) * x[:nf] + dtp + g).max())
+        row2 = float((aD @ ((g + dtp) / np.abs(W)) + f).max()) + lam
+    else:
+        row1, row2 = 0.0, float(f.max() if f.size else 0.0) + lam
+    k = int(w.constrained_cell_flat_index)
+    row3 = (float(p[k]) if p.size else 0.0) + r
+    direct = 64 * n * EPS * max(row1, row2, row3, 1e-300)
+    if solver == "direct":
+        return direct
     bred = rhs[nf:-1] - (w.div @ (rhs[:nf] / W) if nf else 0.0)
-    it = 4 * rtol * float(np.linalg.norm(bred)) + direct
-    return direct if solver == "direct" else it
+    return 4 * rtol * float(np.linalg.norm(bred)) + float(np.sqrt(n)) * direct
 
 
 # ---------------------------------------------------------------------------------------------
@@ -449,53 +461,76 @@ def sig_shape(shape):
     return "x".join(map(str, shape))
 
 
-def one_system(ctx, d, usable, shape, seed_tag, tight=False, fail=True):
-    """Solve one random system through every usable pair; returns list of failure dicts."""
+def one_system(ctx, d, usable, shape, seed_tag, tight=False, only=None, data=None):
+    """Solve one random system through every usable pair; returns (list of failure dicts, data).
+
+    ONE matrix object and ONE rhs array per system are handed to all formulation x back-end pairs in turn (no copies):
+    they are snapshotted before and must be unchanged after every call; residuals are evaluated against the snapshot,
+    i.e. against the system as the caller holds it."""
     w0 = call(make_solver, d, shape, "pressure", "direct")
     if isinstance(w0, Raised):
         return [dict(sig=f"C08:constructor(pressure,direct,shape={sig_shape(shape)}):{w0.cls}", what=f"constructor raises {w0!r}",
-                     pair=["pressure", "direct"])]
+                     pair=["pressure", "direct"])], None
     nf, nc = int(w0.grid.num_faces), int(w0.grid.num_cells)
-    W = random_weights(ctx.rng, nf)
-    systems = [random_rhs(ctx.rng, nf, nc) for _ in range(3)]
-    W2 = random_weights(ctx.rng, nf)
+    if data is None:
+        W = random_weights(ctx.rng, nf)
+        systems = [random_rhs(ctx.rng, nf, nc) for _ in range(3)]
+        W2 = random_weights(ctx.rng, nf)
+        data = (W, systems, W2)
+    W, systems, W2 = data
+    A1, A2 = full_matrix(w0, W), full_matrix(w0, W2)
+    # three successive systems with the same matrix: the cached factorisation / preconditioner is reused;
+    # then a new matrix without reuse (a stale cache would solve the old system)
+    seq = [(A1, systems[0], False, W), (A1, systems[1], True, W), (A1, systems[2], True, W), (A2, systems[0], False, W2)]
+    snap_rhs = [r.copy() for r in systems]
+    snap_mat = {id(A1): (A1.data.copy(), A1.indices.copy(), A1.indptr.copy()), id(A2): (A2.data.copy(), A2.indices.copy(), A2.indptr.copy())}
+    conds = {}
     out = []
     ref = {}
     for (f, s), ok in usable.items():
-        if not ok:
+        if not ok or (only is not None and (f, s) not in only):
             continue
         opts = {}
         rtol = 1e-6
         if tight and s in ("amg", "cg"):
             rtol = 1e-11
-            opts["linear_solver_options"] = {"rtol": rtol, "atol": rtol if s == "amg" else 0.0, "maxiter": 2000}
+            opts["linear_solver_options"] = {"rtol": rtol, "atol": rtol if s == "amg" else 0.0, "maxiter": 400}
         w = call(make_solver, d, shape, f, s, **opts)
         if isinstance(w, Raised):
             out.append(dict(sig=f"C08:constructor({f},{s},shape={sig_shape(shape)}):{w.cls}", what=f"constructor raises {w!r}", pair=[f, s]))
             continue
-        A = full_matrix(w, W)
-        # three successive systems with the same matrix: the cached factorisation / preconditioner is reused;
-        # then a new matrix without reuse (a stale cache would solve the old system)
-        seq = [(A, systems[0], False), (A, systems[1], True), (A, systems[2], True), (full_matrix(w, W2), systems[0], False)]
-        for step, (M, rhs, reuse) in enumerate(seq):
-            r = call(w.linear_solve, M.copy(), rhs.copy(), None, reuse)
+        for step, (M, rhs, reuse, Wm) in enumerate(seq):
+            isys = step if step < 3 else 0
+            r = call(w.linear_solve, M, rhs, None, reuse)
             tag = f"{f},{s}"
+            b0 = snap_rhs[isys]
+            if not np.array_equal(rhs, b0):
+                where = "flux" if not np.array_equal(rhs[:nf], b0[:nf]) else "pressure/multiplier"
+                out.append(dict(sig=f"C08:linear_solve:formulation={f}:linear_solver={s}:mutates-rhs",
+                                what=f"linear_solve[{tag}] overwrites the caller's right-hand side ({where} block changed by up to "
+                                     f"{float(np.abs(rhs - b0).max()):.3e}) on grid {shape}, step {step}", pair=[f, s], step=step))
+                rhs[:] = b0
+            m0 = snap_mat[id(M)]
+            if not (np.array_equal(M.data, m0[0]) and np.array_equal(M.indices, m0[1]) and np.array_equal(M.indptr, m0[2])):
+                out.append(dict(sig=f"C08:linear_solve:formulation={f}:linear_solver={s}:mutates-matrix",
+                                what=f"linear_solve[{tag}] modifies the caller's matrix on grid {shape}, step {step}", pair=[f, s], step=step))
+                M.data, M.indices, M.indptr = m0[0].copy(), m0[1].copy(), m0[2].copy()
             if isinstance(r, Raised):
                 out.append(dict(sig=f"C08:linear_solve({tag}):{r.cls}", what=f"linear_solve raises {r!r} (shape {shape}, step {step})",
                                 pair=[f, s], step=step))
                 break
             x = np.asarray(r[0], dtype=float)
-            if x.shape != rhs.shape or not np.all(np.isfinite(x)):
+            if x.shape != b0.shape or not np.all(np.isfinite(x)):
                 out.append(dict(sig=f"C08:linear_solve:formulation={f}:linear_solver={s}:residual-vs-full-system",
                                 what=f"solution returned by linear_solve[{tag}] has the wrong shape or non-finite entries on grid {shape}, step {step}",
                                 pair=[f, s], step=step))
                 break
-            Wm = W if step < 3 else W2
-            res = exact_residual(M, x, rhs)
+            res = exact_residual(M, x, b0)
             rinf = float(max(abs(v) for v in res))
             r2 = float(sum(v * v for v in res)) ** 0.5
-            tol = tolerances(w, M, Wm, rhs, x, s, rtol)
-            ctx.cov["max_residual_over_tol"][s] = max(ctx.cov["max_residual_over_tol"].get(s, 0.0), (r2 if s != "direct" else rinf) / tol)
+            tol = tolerances(w, M, Wm, b0, x, s, rtol)
+            if (r2 if s != "direct" else rinf) <= tol:
+                ctx.cov["max_residual_over_tol"][s] = max(ctx.cov["max_residual_over_tol"].get(s, 0.0), (r2 if s != "direct" else rinf) / tol)
             if not (r2 if s != "direct" else rinf) <= tol:
                 out.append(dict(sig=f"C08:linear_solve:formulation={f}:linear_solver={s}:residual-vs-full-system",
                                 what=f"solution returned by linear_solve[{tag}] does not satisfy the original full system: "
@@ -507,15 +542,17 @@ def one_system(ctx, d, usable, shape, seed_tag, tight=False, fail=True):
                 ref[key] = (x, (f, s))
             else:
                 x0, p0 = ref[key]
-                cond = float(np.linalg.cond(M.toarray())) if M.shape[0] <= 400 else 1e6
-                ptol = (tol + tolerances(w, M, Wm, rhs, x0, p0[1], rtol)) * cond / max(float(abs(M).max()), 1e-300) * 4
+                if id(M) not in conds:
+                    conds[id(M)] = float(np.linalg.cond(M.toarray())) if M.shape[0] <= 450 else 1e6
+                cond = conds[id(M)]
+                ptol = (tol + tolerances(w, M, Wm, b0, x0, p0[1], rtol)) * cond / max(float(abs(M).max()), 1e-300) * 4
                 diff = float(np.abs(x - x0).max())
                 ctx.cov["max_pair_diff_over_tol"] = max(ctx.cov["max_pair_diff_over_tol"], diff / ptol)
                 if not diff <= ptol:
                     out.append(dict(sig=f"C08:linear_solve:formulation={f}:linear_solver={s}:differs-from:{p0[0]},{p0[1]}",
                                     what=f"solutions of the same system differ by {diff:.3e} > {ptol:.3e} between [{tag}] and {p0} on grid {shape}",
                                     pair=[f, s], step=step))
-    return out
+    return out, data
 
 
 def distance_oracle(ctx, d, usable, shape):
@@ -558,6 +595,83 @@ def distance_oracle(ctx, d, usable, shape):
         ctx.cov.setdefault("distance_spread", []).append(max(vals.values()) - min(vals.values()))
 
 
+def schedule_oracle(ctx, d, usable, shape, L, every, num_iter):
+    """End-to-end Bregman runs whose `bregman_update` fires at iterations > 0 (the regularisation, hence the matrix, changes
+    in the middle of the run; tolerances 0 so that the run gets there): every solution returned by the inner `linear_solve`
+    must solve the (matrix, rhs) it was handed, and the distance must not depend on formulation / back-end."""
+    dim = len(shape)
+    rng_np = np.random.default_rng(ctx.rng.randint(0, 10 ** 6))
+    m1 = rng_np.uniform(0.2, 1.0, size=shape)
+    m2 = rng_np.uniform(0.2, 1.0, size=shape)
+    m2 *= m1.sum() / m2.sum()
+    dims = [0.5 * n for n in shape]
+    vals = {}
+    rp0 = {"kind": "schedule", "shape": list(shape), "L": L, "every": every, "num_iter": num_iter}
+    for (f, s), ok in usable.items():
+        if not ok:
+            continue
+        rtol = 1e-11
+        opts = dict(num_iter=num_iter, L=L, return_info=True, tol_residual=0.0, tol_increment=0.0, tol_distance=0.0,
+                    bregman_update=(lambda it: it % every == every - 1))
+        if s in ("amg", "cg"):
+            opts["linear_solver_options"] = {"rtol": rtol, "atol": rtol if s == "amg" else 0.0, "maxiter": 1000}
+        w = call(make_solver, d, shape, f, s, cls=d.measure.wasserstein.WassersteinDistanceBregman, **opts)
+        if isinstance(w, Raised):
+            continue
+        nf = int(w.grid.num_faces)
+        worst = {"ratio": 0.0, "what": None}
+        inner = w.linear_solve
+
+        def checked(matrix, rhs, *a, _inner=inner, _w=w, _s=s, _worst=worst, **k):
+            A0 = matrix.copy()
+            b0 = np.array(rhs, dtype=float, copy=True)
+            sol, stats = _inner(matrix, rhs, *a, **k)
+            x = np.asarray(sol, dtype=float)
+            Wd = np.asarray(A0.diagonal()[:nf], dtype=float)
+            res = float(np.linalg.norm(A0 @ x - b0)) if np.all(np.isfinite(x)) else float("inf")
+            bred = b0[nf:-1] - (_w.div @ (b0[:nf] / Wd) if nf else 0.0)
+            # iterative back-ends: configured rtol 1e-11; anything above 1e-6 ||b_red|| is not an accuracy matter
+            tol = tolerances(_w, A0, Wd, b0, x, _s, rtol) + (1e-6 * float(np.linalg.norm(bred)) if _s != "direct" else 0.0)
+            tol *= float(np.sqrt(A0.shape[0])) if _s == "direct" else 1.0
+            ratio = res / tol if tol > 0 else 0.0
+            if ratio > _worst["ratio"]:
+                _worst["ratio"] = ratio
+                _worst["what"] = (res, tol, float(np.linalg.norm(b0)), bool(k.get("reuse_solver", False)))
+            return sol, stats
+
+        w.linear_solve = checked
+        i1 = d.Image(m1, space_dim=dim, dimensions=dims, scalar=True)
+        i2 = d.Image(m2, space_dim=dim, dimensions=dims, scalar=True)
+        np.random.seed(4321)
+        r = call(w, i1, i2)
+        ctx.count(("schedule", shape, L, every, f, s))
+        rp = dict(rp0, pair=[f, s])
+        if isinstance(r, Raised):
+            ctx.fail(f"C08:bregman(update-schedule):formulation={f}:linear_solver={s}:{r.cls}",
+                     f"Bregman run with a regularisation update at iterations > 0 raises {r!r} on grid {shape}", rp)
+            continue
+        ctx.cov["max_inner_residual_over_tol"] = max(ctx.cov.get("max_inner_residual_over_tol", 0.0), worst["ratio"])
+        if worst["ratio"] > 1.0:
+            res, tol, nb, reuse = worst["what"]
+            ctx.fail(f"C08:linear_solve:formulation={f}:linear_solver={s}:residual-vs-handed-system:in-bregman-run",
+                     f"inside a Bregman run (L={L}, bregman_update every {every} iterations) linear_solve[{f},{s}] returned a vector with "
+                     f"|A x - b|_2 = {res:.3e} > {tol:.3e} (|b| = {nb:.3e}, reuse_solver={reuse}) for the matrix and rhs it was handed, grid {shape}", rp)
+        info = r[1]
+        if len(info.get("convergence_history", {}).get("distance", [])) < num_iter and not np.isnan(r[0]):
+            ctx.notes.append(f"schedule run {f},{s} on {shape} stopped early")
+        vals[(f, s)] = float(r[0])
+    if vals:
+        ref = vals.get(("full", "direct"), next(iter(vals.values())))
+        for pr, v in vals.items():
+            # direct pairs differ by rounding only; iterative pairs solve to 1e-11: 1e-6 / 1e-5 relative leave orders of margin
+            lim = (1e-5 if pr[1] in ("amg", "cg") else 1e-6) * max(abs(ref), 1e-12)
+            if not abs(v - ref) <= lim:
+                ctx.fail(f"C08:distance(bregman,update-schedule):formulation={pr[0]}:linear_solver={pr[1]}:differs-from-full-direct",
+                         f"Bregman distance {v!r} with {pr} differs from {ref!r} (full/direct) on grid {shape} (L={L}, update every {every})",
+                         dict(rp0, pair=list(pr), value=v, reference=ref))
+        ctx.cov.setdefault("schedule_distance_spread", []).append(max(vals.values()) - min(vals.values()))
+
+
 def oracle(ctx, d, voc, construct, accept):
     # (1) dispatch: every documented formulation is usable; no accepted spelling falls through
     for f in voc["documented_f"]:
@@ -585,20 +699,26 @@ def oracle(ctx, d, voc, construct, accept):
     pool = [s for s in allshapes if s not in fixed]
     shapes = fixed + [ctx.rng.choice(pool) for _ in range(ctx.pick(6, 60))] + (big if ctx.big else [ctx.rng.choice(big)])
     for shape in shapes:
-        fails = one_system(ctx, d, usable, shape, None)
+        fails, data = one_system(ctx, d, usable, shape, None)
         ctx.count(("system", shape), nontrivial=int(np.prod(shape)) > 1)
         if fails:
-            # a tolerance miss of an iterative back-end is re-run once with tightened solver options before it counts
+            # a tolerance miss of an iterative back-end is re-run once (same system, failing pairs only) with tightened
+            # solver options before it counts
             numeric = [x for x in fails if ":residual-vs-full-system" in x["sig"] or ":differs-from:" in x["sig"]]
             hard = [x for x in fails if x not in numeric]
-            if numeric:
-                again = one_system(ctx, d, usable, shape, None, tight=True)
-                numeric = [x for x in again if ":residual-vs-full-system" in x["sig"] or ":differs-from:" in x["sig"]]
+            retry = {tuple(x["pair"]) for x in numeric if x["pair"][1] in ("amg", "cg")}
+            if retry and data is not None:
+                again, _ = one_system(ctx, d, usable, shape, None, tight=True, only=retry | {("full", "direct")}, data=data)
+                keep = [x for x in numeric if tuple(x["pair"]) not in retry]
+                numeric = keep + [x for x in again if ":residual-vs-full-system" in x["sig"] or ":differs-from:" in x["sig"]]
                 ctx.cov["retried_with_tight_options"] = ctx.cov.get("retried_with_tight_options", 0) + 1
             for x in hard + numeric:
                 ctx.fail(x["sig"], x["what"], {"kind": "system", "shape": list(shape), "pair": x.get("pair"), "seed": ctx.seed,
                                                "detail": {k: v for k, v in x.items() if k not in ("sig", "what")}})
-    # (3) end-to-end distance
+    # (3) end-to-end: regularisation updates in the middle of a Bregman run (cached solver must be rebuilt)
+    for shape, L, every, n in [((5, 4), 1.0, 3, 7), ((3, 4), 0.5, 2, 5)] + ([((6, 5), 1.0, 5, 11), ((3, 3, 2), 2.0, 3, 7), ((7,), 0.1, 2, 6)] if ctx.big else []):
+        schedule_oracle(ctx, d, usable, shape, L, every, n)
+    # (4) end-to-end distance (Newton)
     for shape in [(4, 5), (3,)] + ([(3, 2, 2), (6, 6)] if ctx.big else []):
         distance_oracle(ctx, d, usable, shape)
     return usable
@@ -667,10 +787,20 @@ def replay(data):
         ctx.cov["max_pair_diff_over_tol"] = 0.0
         bad = 0
         for trial in range(5):
-            for x in one_system(ctx, d, usable, tuple(rp["shape"]), None):
+            for x in one_system(ctx, d, usable, tuple(rp["shape"]), None)[0]:
                 print("observed :", x["what"])
                 bad += 1
         print("required : every usable formulation x back-end satisfies the original full system within tolerance")
         return 1 if bad else 0
+    if kind == "schedule":
+        ctx = Ctx("C08", "quick", 0, LEVEL)
+        voc = vocabulary(d)
+        construct, accept = tabulate(d, voc)
+        usable = {p: (v == "ok") for p, v in accept.items()}
+        schedule_oracle(ctx, d, usable, tuple(rp["shape"]), rp["L"], rp["every"], rp["num_iter"])
+        for f in ctx.failures:
+            print("observed :", f["signature"], "--", f["what"])
+        print("required : every inner linear_solve solves the system it is handed; the distance is the same for every formulation x back-end")
+        return 1 if ctx.failures else 0
     print("replay   :", rp)
     return 0
